@@ -10,9 +10,9 @@ def c02(tier):
         # 54^2 * 8 = 23328 skeletons with two levels: every 23rd in quick, all in thorough
         {'kind': 'scope', 'count': 1015 if q else 23328, 'cfgs': 'plain',
          'args': ['l=2', 'mode=enum', 'stride=%d' % (23 if q else 1)], 'shards': 2 if q else 14},
-        {'kind': 'scope', 'count': 150 if q else 20000, 'cfgs': 'plain', 'args': ['l=3', 'mode=random'],
+        {'kind': 'scope', 'count': 150 if q else 8000, 'cfgs': 'plain', 'args': ['l=3', 'mode=random'],
          'shards': 1 if q else 16},
-        {'kind': 'scope', 'count': 60 if q else 6000, 'cfgs': 'plain', 'args': ['l=4', 'mode=random'],
+        {'kind': 'scope', 'count': 60 if q else 2000, 'cfgs': 'plain', 'args': ['l=4', 'mode=random'],
          'shards': 1 if q else 8},
         {'kind': 'scopeloop', 'count': 40 if q else 400, 'cfgs': 'basic'},
     ]
